@@ -12,6 +12,7 @@
 //! trusted: env: Secp256k1::verify_ecdsa is external_body whose result is Ok exactly when the uninterpreted predicate sig_valid(msg, sig, key) holds (any signature scheme); the sighash of the commitment transaction and the sighash of each second-stage HTLC transaction are opaque values (commitment_sighash / htlc_sighash_of(htlc), uninterpreted functions of the built transaction / the HTLC); PublicKey, Signature, Message opaque; CommitmentSigned skeleton {signature, htlc_signatures}; CommitmentTransaction skeleton with external_body nondust_htlcs() returning the stored list
 //! trusted: assume_specification for core::cmp::max / core::cmp::min (std definitions): present in every unit so that a change that introduces them is verified instead of being rejected by the tool
 //! trusted: closed_monitor: ChannelMonitorImpl::no_further_updates_allowed is extracted whole (three-flag skeleton of the monitor); update_monitor: the match that classifies each step of an update as pre-close and the condition of the final refusal are deep R15 slices; ChannelMonitorUpdateStep is re-declared with its eleven variant names and dummy payloads (the source patterns use `{ .. }`); applying the steps is dropped and not claimed
+//! trusted: holder_funding_claim: HolderFundingOutput::get_maybe_signed_commitment_tx: the expression that chooses the holder commitment to sign is sliced; OnchainTxHandler is a two-field skeleton with current_holder_commitment_tx / prev_holder_commitment_tx; signing itself is dropped and not claimed
 use vstd::prelude::*;
 verus! {
 use vstd::std_specs::cmp::*;
@@ -327,6 +328,34 @@ impl ChannelMonitorImpl {
 //@ret r
 //@ensures P C05,C10 an-otherwise-valid-update-that-advances-commitment-state-is-refused-once-the-monitor-is-closed
     r == (*ret is Ok && (self.funding_spend_seen || self.lockdown_from_offchain || self.holder_tx_signed) && is_pre_close_update),
+//@end
+}
+}
+
+// ---- which holder commitment a funding-output claim signs (package.rs HolderFundingOutput) -----------------------------
+pub mod holder_funding_claim {
+use vstd::prelude::*;
+pub struct HolderCommitmentTransaction { pub id: u64 }
+pub struct OnchainTxHandler { pub holder_commitment: HolderCommitmentTransaction, pub prev_holder_commitment: Option<HolderCommitmentTransaction> }
+impl OnchainTxHandler {
+    pub fn current_holder_commitment_tx(&self) -> (r: &HolderCommitmentTransaction) ensures *r == self.holder_commitment { &self.holder_commitment }
+    pub fn prev_holder_commitment_tx(&self) -> (r: Option<&HolderCommitmentTransaction>) ensures r is Some == self.prev_holder_commitment is Some, r is Some ==> *r->Some_0 == self.prev_holder_commitment->Some_0 { self.prev_holder_commitment.as_ref() }
+}
+pub struct HolderFundingOutput { pub commitment_tx: Option<HolderCommitmentTransaction> }
+impl HolderFundingOutput {
+//@extract lightning/src/chain/package.rs :: impl HolderFundingOutput :: fn get_maybe_signed_commitment_tx
+//@slice R15
+    let commitment_tx = $e:seq; let maybe_signed_tx = onchain_tx_handler.signer
+//@with
+    fn commitment_to_sign<'a>(&'a self, onchain_tx_handler: &'a OnchainTxHandler) -> &'a HolderCommitmentTransaction { $e }
+//@ret r
+//@ensures P C05,C10 a-funding-output-claim-signs-the-holder-commitment-it-was-created-for-or-failing-that-the-handlers-current-one-never-the-previous-one
+    self.commitment_tx is Some ==> *r == self.commitment_tx->Some_0,
+    self.commitment_tx is None ==> *r == onchain_tx_handler.holder_commitment,
+//@mutant legacy_claim_signs_the_previous_commitment
+    .unwrap_or(onchain_tx_handler.current_holder_commitment_tx());
+//@with
+    .or(onchain_tx_handler.prev_holder_commitment_tx()) .unwrap_or(onchain_tx_handler.current_holder_commitment_tx());
 //@end
 }
 }
